@@ -28,21 +28,21 @@ struct OneshotProbe : OneshotAlarm {
     using OneshotAlarm::OneshotAlarm;
     bool calc(uint32_t t, uint32_t &r) { return calculateNextLocalTimeSec(t, r); }
 };
-struct WorkdayProbe : WorkdayAlarm {
-    using WorkdayAlarm::WorkdayAlarm;
+struct CronProbe : CronAlarm {
+    using CronAlarm::CronAlarm;
     bool calc(uint32_t t, uint32_t &r) { return calculateNextLocalTimeSec(t, r); }
 };
 
-struct CronProbe : CronAlarm {
-    using CronAlarm::CronAlarm;
+struct WorkdayProbe : WorkdayAlarm {
+    using WorkdayAlarm::WorkdayAlarm;
     bool calc(uint32_t t, uint32_t &r) { return calculateNextLocalTimeSec(t, r); }
 };
 
 static const int64_t kWall0 = 1700000000000LL;
 static const uint64_t kMaxWallMs = 4294967295999ULL;
 static const size_t kSlots = 4;
-struct Slot { char kind = 0; WeeklyProbe *wk = nullptr; OneshotProbe *os = nullptr; WorkdayProbe *wd = nullptr;
-              Alarm *a() const { return kind == 'k' ? (Alarm*)wk : kind == 'o' ? (Alarm*)os : kind == 'd' ? (Alarm*)wd : nullptr; } };
+struct Slot { char kind = 0; WeeklyProbe *wk = nullptr; OneshotProbe *os = nullptr; WorkdayProbe *wd = nullptr; CronProbe *cr = nullptr;
+              Alarm *a() const { return kind == 'k' ? (Alarm*)wk : kind == 'o' ? (Alarm*)os : kind == 'd' ? (Alarm*)wd : kind == 'c' ? (Alarm*)cr : nullptr; } };
 static Slot slots[kSlots];
 static std::unique_ptr<WorkdayCalendar> cal;
 static event::Loop *loop = nullptr;
@@ -63,7 +63,7 @@ static std::string state_line(int ret) {
 }
 
 // callback scripts: API calls made from inside the callback
-struct Act { std::string kind; size_t j = 0; uint64_t n = 0; std::map<int, bool> sp; };
+struct Act { std::string kind; size_t j = 0; uint64_t n = 0; int64_t iv = 0; std::string mask; bool wd = false; std::map<int, bool> sp; };
 static std::vector<Act> scripts[kSlots];
 static int pass_callbacks = 0;
 static void run_act(const Act &a);
@@ -79,6 +79,26 @@ static void on_alarm(size_t i) {
     }
     std::vector<Act> sc = scripts[i];
     for (auto &a : sc) run_act(a);
+}
+
+// the user callback: a closure too large for std::function's inline buffer (so it lives on the heap) whose
+// captures are read AFTER the script ran — if cleanup()/setCallback() from inside the callback destroyed the
+// executing closure, ASan sees the read
+static std::function<void()> make_cb(size_t i) {
+    std::string tag = "callback-of-alarm-slot-" + std::to_string(i) + "-................................";
+    size_t len = tag.size();
+    return [i, tag, len] {
+        on_alarm(i);
+        if (tag.size() != len || tag[0] != 'c') { std::cout << "CLOSURE-CORRUPTED" << std::endl; _exit(4); }
+    };
+}
+
+static bool do_init(size_t i, int64_t sod, const std::string &mask, bool wd) {
+    Slot &s = slots[i];
+    bool ok = s.kind == 'k' ? s.wk->initialize((int)sod, mask) : s.kind == 'o' ? s.os->initialize((int)sod) :
+              s.kind == 'd' ? s.wd->initialize((int)sod, cal.get(), wd) : false;     // cron slots have their own op
+    if (ok) st[i] = 'I';
+    return ok;
 }
 
 static void reset_all() {
@@ -101,6 +121,9 @@ static void run_act(const Act &a) {
     else if (a.kind == "dis") al->disable();
     else if (a.kind == "en") al->enable();
     else if (a.kind == "del") { delete al; slots[a.j] = Slot(); st[a.j] = 'N'; }
+    else if (a.kind == "cl") { al->cleanup(); al->setCallback(make_cb(a.j)); st[a.j] = 'N'; }
+    else if (a.kind == "in") do_init(a.j, a.iv, a.mask, a.wd);
+    else if (a.kind == "tz") al->setTimezone((int)a.iv);
 }
 
 static bool slot_of(const std::string &w, size_t &i) { uint64_t v; if (!vh::to_u64(w, v) || v >= kSlots) return false; i = v; return true; }
@@ -155,6 +178,16 @@ static bool script_of(const std::string &w, size_t self, std::vector<Act> &out) 
         else if (it.compare(0, 3, "del") == 0 && slot_of(tail(3), a.j) && a.j != self) a.kind = "del";
         else if (it.compare(0, 2, "cm") == 0 && bounded(tail(2), 255, v)) { a.kind = "cm"; a.n = v; }
         else if (it.compare(0, 2, "cs") == 0 && specials_of(tail(2), a.sp, '+')) a.kind = "cs";
+        else if (it.compare(0, 2, "cl") == 0 && slot_of(tail(2), a.j)) a.kind = "cl";
+        else if (it.compare(0, 2, "tz") == 0) {          // tz<j>:<minutes>
+            auto p = split(tail(2), ':');
+            if (p.size() != 2 || !slot_of(p[0], a.j) || !int_of(p[1], -1440, 1440, a.iv)) return false;
+            a.kind = "tz";
+        } else if (it.compare(0, 2, "in") == 0) {        // in<j>:<sod>:<mask|->:<wd>
+            auto p = split(tail(2), ':');
+            if (p.size() != 4 || !slot_of(p[0], a.j) || !int_of(p[1], -200000, 200000, a.iv) || !mask_of(p[2], a.mask) || !bool_of(p[3], a.wd)) return false;
+            a.kind = "in";
+        }
         else return false;
         out.push_back(a);
     }
@@ -240,20 +273,24 @@ int main(int argc, char **argv) {
                 }
             }
             vt::set_wall_ms(saved);
-        } else if (op == "new" && (w.size() == 3 || w.size() == 4) && slot_of(w[1], i) && (w[2] == "wk" || w[2] == "os" || w[2] == "wd") && !slots[i].a() &&
+        } else if (op == "new" && (w.size() == 3 || w.size() == 4) && slot_of(w[1], i) && (w[2] == "wk" || w[2] == "os" || w[2] == "wd" || w[2] == "cr") && !slots[i].a() &&
                    (w.size() == 3 || script_of(w[3], i, scripts[i]))) {
             if (w.size() == 3) scripts[i].clear();
             Slot &s = slots[i];
             if (w[2] == "wk") { s.kind = 'k'; s.wk = new WeeklyProbe(loop); }
             else if (w[2] == "os") { s.kind = 'o'; s.os = new OneshotProbe(loop); }
-            else { s.kind = 'd'; s.wd = new WorkdayProbe(loop); }
+            else if (w[2] == "wd") { s.kind = 'd'; s.wd = new WorkdayProbe(loop); }
+            else { s.kind = 'c'; s.cr = new CronProbe(loop); }
             st[i] = 'N';
-            s.a()->setCallback([i] { on_alarm(i); });
+            s.a()->setCallback(make_cb(i));
             std::cout << state_line(1) << "\n";
         } else if (op == "init" && w.size() == 5 && slot_of(w[1], i) && int_of(w[2], -200000, 200000, iv) &&
                    mask_of(w[3], m) && bool_of(w[4], b) && slots[i].a()) {
-            Slot &s = slots[i];
-            bool ok = s.kind == 'k' ? s.wk->initialize((int)iv, m) : s.kind == 'o' ? s.os->initialize((int)iv) : s.wd->initialize((int)iv, cal.get(), b);
+            bool ok = do_init(i, iv, m, b);
+            std::cout << state_line(ok) << "\n";
+        } else if (op == "initc" && w.size() == 8 && slot_of(w[1], i) && cron_field(w[2]) && cron_field(w[3]) && cron_field(w[4]) && cron_field(w[5]) &&
+                   cron_field(w[6]) && cron_field(w[7]) && slots[i].a()) {
+            bool ok = slots[i].kind == 'c' && slots[i].cr->initialize(w[2] + " " + w[3] + " " + w[4] + " " + w[5] + " " + w[6] + " " + w[7]);
             if (ok) st[i] = 'I';
             std::cout << state_line(ok) << "\n";
         } else if (op == "tz" && w.size() == 3 && slot_of(w[1], i) && int_of(w[2], -1440, 1440, iv) && slots[i].a()) {
@@ -270,15 +307,19 @@ int main(int argc, char **argv) {
             std::cout << state_line(1) << "\n";
         } else if (op == "cl" && w.size() == 2 && slot_of(w[1], i) && slots[i].a()) {
             slots[i].a()->cleanup();                            // clears the callback too:
-            slots[i].a()->setCallback([i] { on_alarm(i); });    // re-install it (a silent expiry could not be traced)
+            slots[i].a()->setCallback(make_cb(i));    // re-install it (a silent expiry could not be traced)
             st[i] = 'N';
             std::cout << state_line(1) << "\n";
         } else if (op == "del" && w.size() == 2 && slot_of(w[1], i) && slots[i].a()) {
             delete slots[i].a();                   // as a user would: no disable() first
             slots[i] = Slot(); st[i] = 'N';
             std::cout << state_line(1) << "\n";
+        } else if (op == "clx" && w.size() == 2 && slot_of(w[1], i) && slots[i].a()) {
+            slots[i].a()->cleanup();                            // the callback stays cleared: later expiries are silent until `cb`
+            st[i] = 'N';
+            std::cout << state_line(1) << "\n";
         } else if (op == "cb" && w.size() == 2 && slot_of(w[1], i) && slots[i].a()) {
-            slots[i].a()->setCallback([i] { on_alarm(i); });
+            slots[i].a()->setCallback(make_cb(i));
             std::cout << state_line(1) << "\n";
         } else if (op == "calmask" && w.size() == 2 && bounded(w[1], 255, n)) {
             cal->updateWeekMask((uint8_t)n);
